@@ -50,3 +50,32 @@ Proof.
   vm_compute. split; reflexivity.
 Qed.
 Print Assumptions C18_pinned_order_refuted.
+
+(* (4) lock-ups in the teardown interleavings. In every reachable state (any step orders accepted by orders_ok, any
+   threads, any interleaving with each other and with timer expiries) in which some call has not returned, some such call
+   is not blocked: nobody waits for channelBindingsLock while its holder is itself waiting ... *)
+From Turn Require Import C18Check TeardownLive.
+Theorem C18_no_lockup : forall ordp ordc, orders_ok ordp ordc = true -> forall th sched, forallb initial th = true ->
+  let w := wrun ordp ordc sched (init, th) in
+  (exists i t, nth_error (snd w) i = Some t /\ t <> TDone) ->
+  exists i t, nth_error (snd w) i = Some t /\ t <> TDone /\ blockedb (fst w) t = false.
+Proof. exact no_lockup_reachable. Qed.
+Print Assumptions C18_no_lockup.
+
+(* ... and every step of a call that is neither finished nor blocked strictly decreases the measure M (the steps the
+   adders still have to take, weighted, plus what the closers still have to walk through given the present size of the
+   two tables): every scheduler that keeps running such calls makes all of them return within M steps *)
+Theorem C18_every_step_makes_progress : forall ordp ordc, orders_ok ordp ordc = true -> forall w i t,
+  Inv ordp w -> nth_error (snd w) i = Some t -> t <> TDone -> blockedb (fst w) t = false ->
+  (M ordp ordc (wstep ordp ordc w (Run i)) < M ordp ordc w)%nat.
+Proof. intros ordp ordc H. exact (step_decreases ordp ordc H). Qed.
+Print Assumptions C18_every_step_makes_progress.
+
+Theorem C18_all_calls_return : forall ordp ordc, orders_ok ordp ordc = true -> forall th sched, forallb initial th = true ->
+  let w := wrun ordp ordc sched (init, th) in
+  exists more, (length more <= M ordp ordc w)%nat /\ forallb is_done (snd (wrun ordp ordc more w)) = true.
+Proof.
+  intros ordp ordc H th sched Hi w. apply (all_calls_return ordp ordc H (M ordp ordc w)); [|apply le_n].
+  apply (wrun_inv ordp ordc H). apply init_inv. exact Hi.
+Qed.
+Print Assumptions C18_all_calls_return.
